@@ -129,7 +129,10 @@ func runOnce(f func() error) Outcome {
 			ch <- o
 		}()
 
-		if err := f(); err != nil {
+		if err := f(); isAmp(err) {
+			// resources out of proportion to the input: judged like a hang (confirmed by the second run)
+			o = Outcome{Class: "timeout", Err: err.Error(), Site: "amplification"}
+		} else if err != nil {
 			o = Outcome{Class: "err", Err: err.Error()}
 		} else {
 			o = Outcome{Class: "ok"}
